@@ -209,7 +209,7 @@ def case_files(pid, tag, cases, imports, prelude):
     out = []
     for k, chunk in enumerate(files):
         name = "Cases_%s_%s_%d" % (pid, tag, k)
-        text = ["From PCD Require Import Base.PyBase Base.Ser %s.\n" % imports,
+        text = ["From PCD Require Import Base.PyBase Base.Ser %s.\n" % imports.replace("{TAG}", tag),
                 "Open Scope Z_scope.\n", prelude.replace("{TAG}", tag) + "\n"]
         text += [l for _, l in chunk]
         text.append("Definition all_cases := [%s].\n" % "; ".join("c%d" % i for i, _ in chunk))
